@@ -356,6 +356,10 @@ fn sweep_single(ctx: &Ctx, rep: &mut Report) {
         let v = matrix_f64(&mut rng, n as usize, fam, true);
         cases.push(AlgoCase { algo: (k % 2) as u8, method: 0, wide: true, n, bits: to_bits(&v, true), family: fam });
     }
+    let mut st64: kodama::LinkageState<f64> = kodama::LinkageState::new();
+    let mut d64: kodama::Dendrogram<f64> = kodama::Dendrogram::new(0);
+    let mut st32: kodama::LinkageState<f32> = kodama::LinkageState::new();
+    let mut d32: kodama::Dendrogram<f32> = kodama::Dendrogram::new(0);
     for c in cases {
         tick(&ctx.progress, &format!("{} single n={} {}", ALGO_NAMES[c.algo as usize], c.n, c.family));
         let out = run_fresh_w(c.wide, c.algo, 0, c.n, &c.bits);
@@ -363,6 +367,14 @@ fn sweep_single(ctx: &Ctx, rep: &mut Report) {
         if c.n >= 3 { rep.nontrivial.insert(c.key()); }
         if let Some(v) = check_single_exact(&c, &out, c.n <= 60) {
             rep.violation(format!("C04 violated: {} :: {}", v, shorten(&c)));
+        }
+        if c.n <= 600 {
+            // the same input through the `_with` form on objects reused across the sweep
+            let out2 = if c.wide { run_reused::<f64>(&mut st64, &mut d64, c.algo, 0, c.n, &c.bits) } else { run_reused::<f32>(&mut st32, &mut d32, c.algo, 0, c.n, &c.bits) };
+            rep.evaluations += 1;
+            if let Some(v) = check_single_exact(&c, &out2, c.n <= 60) {
+                rep.violation(format!("C04 violated on a reused LinkageState/Dendrogram (previous calls of this sweep, other sizes): {} :: {}_with {}", v, ALGO_NAMES[c.algo as usize], shorten(&c)));
+            }
         }
         if c.n == 4 { rep.sample(format!("{} -> {}", c.describe(), join(&tokens(&out), " "))); }
     }
